@@ -114,6 +114,12 @@ def proofs(pid, cfg, report):
     report["obligations"] = len(names) + len(cfg.get("extra_theorems", []))
     report["discharged"] = len(ok_names)
     report["theorems"] = ok_names
+    if report.get("tier") == "thorough":
+        # independent re-check of the compiled proofs of the property's module by the toolchain's leanchecker
+        rc, out = sh(["lake", "env", "leanchecker", f"XehModel.Props.{pid}"], cwd=LEAN, timeout=1800)
+        report["leanchecker_rc"] = rc
+        if rc != 0:
+            report["proof_failures"].append({"kind": "leanchecker rejected the compiled module", "module": f"XehModel.Props.{pid}", "output": out[-600:]})
     return not report["proof_failures"]
 
 
@@ -202,7 +208,7 @@ def main():
         print(f"unknown property {pid}"); sys.exit(2)
     cfg = PROPS[pid]
     t0 = time.time()
-    report = {"proof_failures": [], "obligations": 0, "discharged": 0, "theorems": []}
+    report = {"proof_failures": [], "obligations": 0, "discharged": 0, "theorems": [], "tier": tier}
     known = load_known()
     # Tie B: regenerate Generated/*.lean from /repo's working tree
     if os.path.exists(f"{ROOT}/tools/extract.py"):
